@@ -139,6 +139,12 @@ def report(prop, tier, seed_, t, *, records, trace_module, mc_stats, rule, sampl
             if not any(c.startswith(prop + ":") for cl in bad.values() for c in cl):
                 raise MachineryError(f"{prop} binding self-test found no accepted record to corrupt")
             st = {"skipped": "no accepted record suitable for corruption in a run with rejections"}
+        except MachineryError as ex:
+            # a run that already rejects records of this property reports them; the self-test is only
+            # mandatory for a run that would otherwise pass
+            if not any(c.startswith(prop + ":") for cl in bad.values() for c in cl):
+                raise
+            st = {"failed_in_a_run_with_rejections": str(ex)[:300]}
     known = [k for k in common.load_known() if k["property"] == prop and k.get("status") == "open"]
     byrid = {r["rid"]: r for r in records}
     known_hits = Counter()
